@@ -15,6 +15,7 @@
 package analysis
 
 import (
+	"fmt"
 	"log"
 	"path"
 	"sort"
@@ -108,6 +109,7 @@ func Flatten(opts FlattenOpts) error {
 	debugLog("FlattenOpts: %#v", opts)
 
 	opts.flattenContext = newContext()
+	verifEmit("flatten.start", opts.Swagger(), opts.BasePath, fmt.Sprintf("minimal=%t expand=%t removeUnused=%t keepNames=%t continueOnError=%t", opts.Minimal, opts.Expand, opts.RemoveUnused, opts.KeepNames, opts.ContinueOnError))
 
 	// 1. Recursively expand responses, parameters, path items and items in simple schemas.
 	//
